@@ -237,7 +237,9 @@ def run(case, out):
 
 def strategy_schema(tier):
     extra = st.fixed_dictionaries({"via": st.sampled_from(["plain", "with", "with"]),
-                                   "schema_op": st.sampled_from([None, None, "add_x", "remove_w", "remove_x"])})
+                                   "schema_op": st.sampled_from([None, None, "add_x", "remove_w", "remove_x"]),
+                                   # a second schema change made by the same writer
+                                   "second_op": st.sampled_from([None, None, "add_y", "remove_w", "remove_d"])})
     return st.fixed_dictionaries({
         "hist": gen.history_s(max_txs=6, min_txs=2, max_docs=5, allow_cancel=True,
                               schema_s=st.fixed_dictionaries({"t_vector": st.booleans(), "g_sortable": st.booleans()})),
@@ -301,6 +303,8 @@ def run_schema(case, out):
         xdocs = set()
         has_x = False
         has_w = True
+        has_y = False
+        has_d = True
         x_was_removed = False
         nt = False
         skeleton = []
@@ -326,15 +330,32 @@ def run_schema(case, out):
                 new_w = False
             else:
                 op = None
+            op2 = ex.get("second_op")
+            new_y, new_d = has_y, has_d
+            if op2 == "add_y" and not has_y:
+                w.add_field("y", wfields.ID(stored=True))
+                new_y = True
+            elif op2 == "remove_w" and new_w:
+                w.remove_field("w")
+                new_w = False
+            elif op2 == "remove_d" and has_d:
+                w.remove_field("d")
+                new_d = False
+            else:
+                op2 = None
+            if op and op2:
+                out.label("two_schema_changes_in_one_writer")
             tx2 = dict(tx)
-            if not new_w:
-                tx2["ops"] = [[o[0], dict(o[1], w=[])] if o[0] in ("add", "upd") else o for o in tx["ops"]]
+            if not new_w or not new_d:
+                tx2["ops"] = [[o[0], dict(o[1], w=(o[1].get("w") if new_w else []), d=(o[1].get("d") if new_d else None))]
+                              if o[0] in ("add", "upd") else o for o in tx["ops"]]
             pw = ProxyWriter(w, ex["via"], new_x)
             committed = corpus.apply_tx(ix, model, tx2, ref_eval, to_whoosh, writer=pw)
             skeleton.append([[o[0] for o in tx["ops"]], tx.get("end"), ex["via"], op])
             if committed:
                 x_was_removed = x_was_removed or removing_x
                 has_x, has_w = new_x, new_w
+                has_y, has_d = new_y, new_d
                 xdocs = (xdocs | set(pw.added_with_x)) if has_x else set()
             else:
                 after = dump(ix)
@@ -342,10 +363,12 @@ def run_schema(case, out):
                     out.fail("c07.cancel_changed_index:%s" % ex["via"], diff(before, after))
                 if sorted(ix.schema.names()) != names_before:
                     out.fail("c07.cancel_changed_schema:%s" % ex["via"], [names_before, sorted(ix.schema.names())])
-                if ex["via"] == "with" or op:
+                if ex["via"] == "with" or op or op2:
                     nt = True
-            if ("x" in ix.schema.names()) != has_x or ("w" in ix.schema.names()) != has_w:
-                out.fail("c07.schema_after_transaction", {"tx": i, "names": sorted(ix.schema.names()), "x": has_x, "w": has_w})
+            names_now = ix.schema.names()
+            if [("x" in names_now), ("w" in names_now), ("y" in names_now), ("d" in names_now)] != [has_x, has_w, has_y, has_d]:
+                out.fail("c07.schema_after_transaction", {"tx": i, "names": sorted(names_now),
+                                                          "expected_xwyd": [has_x, has_w, has_y, has_d]})
             verify(ix, model, out, "tx%d" % i)
             if has_x:
                 s = ix.searcher()
@@ -370,7 +393,8 @@ def run_schema(case, out):
         if case["store"] != "ram" and not out.violations:
             from whoosh import index as windex
             ix2 = windex.open_dir(d)
-            if ("x" in ix2.schema.names()) != has_x or ("w" in ix2.schema.names()) != has_w:
+            n2 = ix2.schema.names()
+            if [("x" in n2), ("w" in n2), ("y" in n2), ("d" in n2)] != [has_x, has_w, has_y, has_d]:
                 out.fail("c07.schema_after_reopen", sorted(ix2.schema.names()))
             verify(ix2, model, out, "reopen")
             ix2.close()
